@@ -26,7 +26,8 @@ A case is a JSON-able dict:
   layout: list of  {'ns': True}  |  {'fixed': bool, 'map': [K x (-1 unmapped | 0 gamma | 1 ecut)], 'value': float}
   theta:  values of the floating parameters in declaration order (including ns)
   ds:     list of {'N', 'E', 'mask': None | K x E 0/1, 'cA','sA','cB','sB': K x E, 'y0','u','v': [K],
-                   optional 'lg','lx': [K]}
+                   optional 'lg','lx': [K], optional 'parA','parB': bool (False: that factor is a parameter-free
+                   PDF ratio whose get_gradient returns the int 0 — the yields still depend on the parameter)}
   A dataset whose yield row is all zero may have selected events (SourceWeightedPDFRatio keeps the zero numerator,
   `if A > 0`).
 """
@@ -113,6 +114,10 @@ def local_values(case, theta=None):
 def leaf_tables(case, j, loc):
     d = case['ds'][j]
     cA, sA, cB, sB = (np.array(d[n], dtype=np.float64) for n in ('cA', 'sA', 'cB', 'sB'))
+    if not d.get('parA', True):
+        sA = np.zeros_like(sA)          # factor A is a parameter-free PDF ratio
+    if not d.get('parB', True):
+        sB = np.zeros_like(sB)
     rA = cA * np.exp(sA * (loc[:, 0:1] - DEFAULTS[0]))
     rB = cB * np.exp(sB * (loc[:, 1:2] - DEFAULTS[1]))
     return rA, rB, sA * rA, sB * rB
@@ -234,6 +239,10 @@ def build(case, trial=0):
     for j in range(J):
         d = case['ds'][j]
         cA, sA, cB, sB = (np.array(d[n], dtype=np.float64) for n in ('cA', 'sA', 'cB', 'sB'))
+        if not d.get('parA', True):
+            sA = np.zeros_like(sA)
+        if not d.get('parB', True):
+            sB = np.zeros_like(sB)
 
         def RA(params, cA=cA, sA=sA):
             return cA * np.exp(sA * (_loc(params, 0, K)[:, None] - DEFAULTS[0]))
@@ -245,8 +254,11 @@ def build(case, trial=0):
         if d.get('mask') is not None or trial:
             esm = fx.StubEventSelection(shg_mgr, mask_of(case, j, trial))
         tdm = fx.make_tdm(shg_mgr, pmm, fx.make_events(d['E']), n_events=trial_n_events(case, j, trial), evt_sel_method=esm)
-        a = fx.StubPDFRatio(cfg, RA, dR={'gamma': (lambda params, RA=RA, sA=sA: sA * RA(params))})
-        b = fx.StubPDFRatio(cfg, RB, dR={'ecut': (lambda params, RB=RB, sB=sB: sB * RB(params))})
+        # a parameter-free factor has no param_names and returns the int 0 from get_gradient
+        a = fx.StubPDFRatio(cfg, RA, dR={'gamma': (lambda params, RA=RA, sA=sA: sA * RA(params))}) \
+            if d.get('parA', True) else fx.StubPDFRatio(cfg, RA, dR=None, param_names=[])
+        b = fx.StubPDFRatio(cfg, RB, dR={'ecut': (lambda params, RB=RB, sB=sB: sB * RB(params))}) \
+            if d.get('parB', True) else fx.StubPDFRatio(cfg, RB, dR=None, param_names=[])
         prod = PDFRatioProduct(a, b, cfg=cfg)
         outer = SourceWeightedPDFRatio(dataset_idx=j, src_detsigyield_weights_service=sdw, pdfratio=prod, cfg=cfg)
         B.tdms.append(tdm)
@@ -491,6 +503,10 @@ def build_i3(case, trial=0):
         E = case['E'][j]
         (_rng, ev) = _i3_events(case, j, trial)
         spatial = fx.StubPDFRatio(cfg, np.exp(np.random.RandomState(case['ev_seed'] + 5 * j).uniform(-1.5, 2.5, size=(K, E))))
+        if case.get('no_energy'):
+            # a parameter-free PDF ratio product (e.g. spatial ratio x a fixed-spectrum energy ratio): its get_gradient
+            # returns the int 0 for gamma, while the I3 detector signal yields do depend on gamma
+            energy = fx.StubPDFRatio(cfg, np.exp(np.random.RandomState(case['ev_seed'] + 9 * j).uniform(-1.0, 1.0, size=(K, E))))
         prod = PDFRatioProduct(energy, spatial, cfg=cfg) if case.get('order', 'first') == 'first' \
             else PDFRatioProduct(spatial, energy, cfg=cfg)
         outer = SourceWeightedPDFRatio(dataset_idx=j, src_detsigyield_weights_service=sdw, pdfratio=prod, cfg=cfg)
